@@ -254,6 +254,18 @@ func checkAVCConf(c avcConfCase) *harness.Fail {
 	return chk("DecodeFile(Encode(SetAVCDescriptor))", file.Init.Moov.Trak, extSure)
 }
 
+// confCountBucket: 0..3 exactly, then the ranges that matter for the two count fields (5 and 8 bits).
+func confCountBucket(n int) string {
+	switch {
+	case n <= 3:
+		return fmt.Sprint(n)
+	case n <= 31:
+		return "4..31"
+	default:
+		return "32..255"
+	}
+}
+
 func TestAVCConf(t *testing.T) {
 	harness.RunRapid(t, "conf", func(rt *rapid.T) {
 		var c avcConfCase
@@ -264,7 +276,7 @@ func TestAVCConf(t *testing.T) {
 		p0 := c.SPS[0].S.Profile
 		c.EncodeBoxes = !esgen.AVCAvoid("avc-conf-avcc-size-encode-mismatch", p0 != 66 && p0 != 77 && p0 != 88 && p0 != 100 && p0 != 110 && p0 != 122 && p0 != 144)
 		cl := esgen.AVCSPSClasses(&c.SPS[0])
-		cl = append(cl, fmt.Sprintf("avc-conf-%s-ps%v", c.SampleEntry, c.IncludePS), fmt.Sprintf("avc-conf-nsps%d-npps%d", nSPS, nPPS))
+		cl = append(cl, fmt.Sprintf("avc-conf-%s-ps%v", c.SampleEntry, c.IncludePS), fmt.Sprintf("avc-conf-nsps%s-npps%s", confCountBucket(nSPS), confCountBucket(nPPS)))
 		switch p0 {
 		case 66, 77, 88:
 			cl = append(cl, "avc-conf-record-without-ext-fields")
